@@ -31,4 +31,6 @@ pub trait DDNNFPtr: Copy + PartialEq {
     fn is_false(&self) -> (b: bool)
         ensures b == self.is_false_s();
     fn is_neg(&self) -> (b: bool);
+    /// number of nodes (a size heuristic for callers; nothing is claimed about the number)
+    fn count_nodes(&self) -> (n: usize);
 }
